@@ -470,3 +470,13 @@ Theorem on_disconnect_once_per_notice : forall ids h, NoDup ids -> ids <> [] -> 
 Proof.
   intros ids h Hnd Hne Hv. destruct (run_refines ids h Hnd Hne Hv) as [_ [_ [_ [C O]]]]. split; assumption.
 Qed.
+
+(* ---- persist / restore steps ----------------------------------------------------------------- *)
+
+Theorem run_steps_events : forall l e, run_steps e l = run e (events_of l).
+Proof.
+  induction l as [|s t IH]; intros e; [reflexivity|].
+  unfold run_steps, run in *. destruct s as [ev|]; cbn [fold_left apply_hstep events_of flat_map app].
+  - apply IH.
+  - apply IH.
+Qed.
